@@ -502,7 +502,7 @@ func runCase0(e *hx.Env, m *hx.Model, k kase) {
 	haveSnap := false
 	var snapSorted []px.KV
 	flushes, maxLevel, sawCpRv := 0, 0, false
-	emptyCp, multiRv, rvSinceCp := false, false, 0
+	emptyCp, emptyCpRv, multiRv, rvSinceCp := false, false, false, 0
 	pendingSinceFlush := 0
 	for i, o := range k.Ops {
 		var line, want string
@@ -543,6 +543,9 @@ func runCase0(e *hx.Env, m *hx.Model, k kase) {
 				rvSinceCp++
 				if rvSinceCp >= 2 {
 					multiRv = true
+				}
+				if emptyCp {
+					emptyCpRv = true // from here on the flushed edits of the unrecorded checkpoint stay
 				}
 				mut.Revert(ctx)
 				return "ok"
@@ -715,7 +718,7 @@ func runCase0(e *hx.Env, m *hx.Model, k kase) {
 			if sawCpRv {
 				shape += "/after-checkpoint-or-revert"
 			}
-			if emptyCp {
+			if emptyCp || emptyCpRv {
 				shape = "revert-after-empty-checkpoint"
 			} else if multiRv {
 				shape = "repeated-revert"
@@ -783,7 +786,7 @@ func main() {
 		}
 	}
 	g := &gen{r: e.Rng}
-	n := e.N(700, 20000)
+	n := e.N(700, 8000)
 	if e.Search && !e.Thorough() {
 		n = 4 * 700 // search after a broken proof/tie: a few times the quick budget per seed
 	}
